@@ -412,13 +412,13 @@ class Molecules:
         for mol in moles:
             pos.append(mol.pos)
             quat.append(mol.quaternion())
-            features.append(mol.features)
+            features.append(_features_with_rows(mol))
 
         all_pos = np.concatenate(pos, axis=0)
         all_quat = np.concatenate(quat, axis=0)
         if concat_features:
             how = "diagonal" if nullable else "vertical"
-            all_features = pl.concat(features, how=how)
+            all_features = _drop_row_placeholder(pl.concat(features, how=how))
         else:
             all_features = None
 
@@ -977,13 +977,17 @@ class Molecules:
             [self.quaternion(), other.quaternion()],
             axis=0,
         )
-        if len(self.features) == 0:
+        if self.count() == 0:
             feat = other.features
-        elif len(other.features) == 0:
+        elif other.count() == 0:
             feat = self.features
         else:
             how = "diagonal" if nullable else "vertical"
-            feat = pl.concat([self.features, other.features], how=how)
+            feat = _drop_row_placeholder(
+                pl.concat(
+                    [_features_with_rows(self), _features_with_rows(other)], how=how
+                )
+            )
         return self.__class__(pos, Rotation.from_quat(rot), features=feat)
 
     @overload
@@ -1142,3 +1146,22 @@ def _is_boolean_array(a: Any) -> TypeGuard[NDArray[np.bool_]]:
 def cross(x: ArrayLike, y: ArrayLike, axis=None) -> np.ndarray:
     """Vector outer product in zyx coordinate."""
     return -np.cross(x, y, axis=axis)  # type: ignore
+
+
+_ROW_PLACEHOLDER = "__acryo_row_placeholder__"
+
+
+def _features_with_rows(mol: Molecules) -> pl.DataFrame:
+    """Features with one row per molecule, even if there is no feature column."""
+    feat = mol.features
+    if feat.width == 0 and mol.count() > 0:
+        return pl.DataFrame(
+            {_ROW_PLACEHOLDER: np.zeros(mol.count(), dtype=np.uint8)}
+        )
+    return feat
+
+
+def _drop_row_placeholder(feat: pl.DataFrame) -> pl.DataFrame:
+    if _ROW_PLACEHOLDER in feat.columns:
+        return feat.drop(_ROW_PLACEHOLDER)
+    return feat
